@@ -193,6 +193,14 @@ func Threads(fs ...func()) {
 	wg.Wait()
 }
 
+// Await blocks the calling thread until cond() holds (engine: the scheduler runs the other
+// threads; natively: polls).
+func Await(cond func() bool) {
+	for !cond() {
+		time.Sleep(time.Millisecond)
+	}
+}
+
 // Yield marks a scheduling point inside a harness model (e.g. a database call).
 func Yield() {}
 
